@@ -85,6 +85,12 @@ impl super::Authorizer {
 
             let mut block = proto_snapshot_block_to_token_block(block)?;
 
+            // every block of a snapshot, third-party ones included, is expressed in the
+            // snapshot's own symbol table
+            if block.external_key.is_some() {
+                block.symbols = token_symbols.clone();
+            }
+
             if let Some(key) = block.external_key.as_ref() {
                 public_key_to_block_id
                     .entry(authorizer.symbols.public_keys.insert(key) as usize)
